@@ -240,7 +240,94 @@ example :
     ((Sys.init.run steps).nodes 2).regs 1 = some ⟨.failed, 4, 1⟩ ∧ (Sys.init.run steps).announced 1 = 1 := by
   decide
 
-/-! ## 7. the defect the fix removed -/
+/-! ## 7. the manager (`GossipMembershipManager::handle_gossip`) -/
+
+/-- Two managers (same configuration, same starting CRDT registers for `m`) that handle Sync
+    messages carrying the same **set** of states — any order, any split into messages, any
+    repetition, any `sender_time`s — hold the same register for every member `m` that is not one
+    of the senders, provided no incarnation exceeds the configured `max_incarnation_delta` (the
+    jump filter is a deliberately state-dependent guard outside the property's small incarnation
+    ranges).  The sender's own register is excluded: `handle_sync` stamps it with a receiver-local
+    "alive" event. -/
+theorem mgr_sync_order_independent (g₁ g₂ : Mgr) (M₁ M₂ : List Msg) (m : Nat)
+    (hcfg : g₁.maxDelta = g₂.maxDelta) (hstart : g₁.st.regs m = g₂.st.regs m)
+    (h₁ : SyncsNotFrom m M₁) (h₂ : SyncsNotFrom m M₂)
+    (hset : ∀ u, u ∈ syncPayload M₁ ↔ u ∈ syncPayload M₂)
+    (hpass : ∀ u ∈ syncPayload M₁, u.reg.inc ≤ g₁.maxDelta) :
+    (g₁.run M₁).st.regs m = (g₂.run M₂).st.regs m := by
+  rw [runSyncs_regs g₁ M₁ m h₁ hpass,
+    runSyncs_regs g₂ M₂ m h₂ (fun u hu => hcfg ▸ hpass u ((hset u).mpr hu)), hstart]
+  exact isJoin_unique (joinList_isJoin _ _) (joinList_isJoin _ _)
+    (fun x => by rw [mem_forMember, mem_forMember]; exact hset _)
+
+example :
+    let a : Update := ⟨1, ⟨.healthy, 2, 1⟩⟩
+    let b : Update := ⟨1, ⟨.failed, 2, 1⟩⟩
+    SyncsNotFrom 1 [.sync 4 [a] 0, .sync 4 [b] 3] ∧
+    ((Mgr.new 5 100).run [.sync 4 [a] 0, .sync 4 [b] 3]).st.regs 1 = some b.reg ∧
+    ((Mgr.new 5 100).run [.sync 4 [b, a] 1]).st.regs 1 = some b.reg := by
+  refine ⟨by simp [SyncsNotFrom], by decide, by decide⟩
+
+/-- every handled message (Sync incl. the jump filter and the sender stamp, Suspect, Alive,
+    add_peer) leaves the manager's Lamport clock and every recorded incarnation non-decreasing -/
+theorem mgr_clock_monotone (g : Mgr) (x : Msg) : g.st.clock ≤ (g.handle x).st.clock := by
+  cases x with
+  | sync s b t =>
+    simp only [Mgr.handle, Mgr.handleSync]
+    refine Nat.le_trans ?_ (clock_monotone _ (.merge _))
+    refine Nat.le_trans ?_ (clock_monotone _ (.merge _))
+    simp only [syncTime]; omega
+  | suspect m i =>
+    simp only [Mgr.handle, Mgr.handleSuspect]
+    split
+    · exact Nat.le_refl _
+    · split
+      · exact Nat.le_refl _
+      · exact clock_monotone g.st (.suspect m i)
+  | alive m i =>
+    simp only [Mgr.handle]
+    cases handleAlive_st g m i with
+    | inl h => rw [h]; exact Nat.le_refl _
+    | inr h => rw [h]; exact clock_monotone g.st (.refute m i)
+  | addPeer p =>
+    simp only [Mgr.handle, Mgr.addPeer]
+    cases g.st.regs p with
+    | some _ => exact Nat.le_refl _
+    | none =>
+      simp only []
+      refine Nat.le_trans ?_ (clock_monotone _ (.merge _))
+      simp
+
+theorem mgr_inc_monotone (g : Mgr) (x : Msg) (m : Nat) (e : Reg) (h : g.st.regs m = some e) :
+    ∃ e', (g.handle x).st.regs m = some e' ∧ e.inc ≤ e'.inc := by
+  cases x with
+  | sync s b t =>
+    simp only [Mgr.handle, Mgr.handleSync]
+    obtain ⟨e1, h1, l1⟩ := inc_monotone (syncTime g.st t)
+      (.merge (b.filter (passesDelta (syncTime g.st t) g.maxDelta))) trivial m e h
+    obtain ⟨e2, h2, l2⟩ := inc_monotone _ (.merge [⟨s, ⟨.healthy, _, _⟩⟩]) trivial m e1 h1
+    exact ⟨e2, h2, Nat.le_trans l1 l2⟩
+  | suspect m' i =>
+    simp only [Mgr.handle, Mgr.handleSuspect]
+    split
+    · exact ⟨e, h, Nat.le_refl _⟩
+    · split
+      · exact ⟨e, h, Nat.le_refl _⟩
+      · exact inc_monotone g.st (.suspect m' i) trivial m e h
+  | alive m' i =>
+    simp only [Mgr.handle]
+    cases handleAlive_st g m' i with
+    | inl h' => rw [h']; exact ⟨e, h, Nat.le_refl _⟩
+    | inr h' => rw [h']; exact inc_monotone g.st (.refute m' i) trivial m e h
+  | addPeer p =>
+    simp only [Mgr.handle, Mgr.addPeer]
+    cases hp : g.st.regs p with
+    | some _ => exact ⟨e, h, Nat.le_refl _⟩
+    | none =>
+      simp only []
+      exact inc_monotone { g.st with clock := g.st.clock + 1 } (.merge _) trivial m e h
+
+/-! ## 8. the defect the fix removed -/
 
 /-- With the pre-fix merge (`supersedes` only) two replicas that received the same two updates —
     an exact `(incarnation, timestamp)` tie with different health — in opposite orders disagree
